@@ -1,5 +1,6 @@
 import os
 
+import lib
 from lib import TieCheck, build_harness, sh, go_env, REPO, COQ
 
 
@@ -25,6 +26,29 @@ class C20(TieCheck):
             return False, "c20gen does not build:\n" + lg
         rc, o = sh([g, "repo=" + os.path.abspath(REPO), "out=" + os.path.join(COQ, "C20", "GenFuns.v")], env=go_env())
         return rc == 0, o
+
+    def run(self, tier, seed, replay=None):
+        # A broken proof must not prevent the case files from being evaluated (they only need
+        # the model, Corr.vo): when the area does not build completely, build Corr.vo alone and
+        # let TieCheck go on; the broken proof is then reported by its proof-obligation step
+        # (coqc Props_*.v fails) and a concrete failing input is still searched for.
+        orig = lib.coq_build
+
+        def build(area, clean=False, _seen=None):
+            ok, lg = orig(area, clean, _seen)
+            if not ok and area == self.area:
+                with lib.Lock("coq." + area):
+                    rc, _ = sh(["make", "Corr.vo"], cwd=os.path.join(COQ, area), timeout=1500)
+                if rc == 0:
+                    lib.log("-- coq-build: area %s does not build completely (model and Corr.vo do):\n%s" % (area, lg[-1500:]))
+                    return True, lg
+            return ok, lg
+
+        lib.coq_build = build
+        try:
+            return super().run(tier, seed, replay)
+        finally:
+            lib.coq_build = orig
 
 
 CHECK = C20()
